@@ -289,7 +289,9 @@ def run(ctx):
             if enc_opt and rng.random() < 0.6:
                 # half-plausible chunked garbage
                 data = b"".join(rng.choice((b"%x\r\n" % rng.randint(0, 40), b"\r\n", b"0\r\n\r\n", b"zz\r\n",
-                                            b"-5\r\n", b"ffffffff\r\n",
+                                            b"-5\r\n", b"ffffffff\r\n", b"f" * rng.randint(15, 40) + b"\r\n",
+                                            b"7fffffffffffffff\r\n", b"8000000000000000\r\n", b"1" + b"0" * 30 + b"\r\n",
+                                            b"0x10\r\n", b" 5 \r\n", b"5;ext=1\r\n", b"+3\r\n", b"1_0\r\n",
                                             bytes(rng.getrandbits(8) for _ in range(rng.randint(1, 30)))))
                                 for _ in range(rng.randint(2, 14))) + data[:200]
             sizes = [rng.choice((1, 2, 3, 7, 50, "T", "E", 400)) for _ in range(rng.randint(0, 25))]
